@@ -109,11 +109,15 @@ def lift_tokens(model, prefix="state.tokens"):
     ne = _arr(model, f"{prefix}.nesting", n)
     lv = _arr(model, f"{prefix}.level", n)
     co = _arr(model, f"{prefix}.content", n)
+    tg = _arr(model, f"{prefix}.tag", n)
+    mk = _arr(model, f"{prefix}.markup", n)
     out = []
     for i in range(n):
         t = Token(atom(ty[i]) or "k0", "", max(-1, min(1, ne[i])) if False else ne[i])
         t.level = lv[i]
         t.content = atom(co[i])
+        t.tag = atom(tg[i])
+        t.markup = atom(mk[i])
         out.append(t)
     return out
 
@@ -191,6 +195,26 @@ def replay_obligation(ob, contracts_mod: str):
             fn = lambda **kw: meth(**kw)  # noqa: E731
             info["lifted"] = {"constructor": "Ruler() + Rule records from the model", "arguments": {"rules": [(x.name, x.enabled, list(x.alt)) for x in r.__rules__], "cache_is_none": r.__cache__ is None,
                                                                                                    **{k: (v if not callable(v) else "<fn>") for k, v in args.items() if k != "self"}}}
+        elif c.params.get("delimiters") == "reclist:Delimiter":
+            from types import SimpleNamespace
+
+            from markdown_it.rules_inline.state_inline import Delimiter
+
+            n = int(_const(model, "len(delimiters)", 0))
+            if n > 40:
+                return info
+            cols = {f: _arr(model, f"delimiters.{f}", n) for f in ("marker", "length", "token", "end")}
+            flags = {f: model["arrays"].get(f"delimiters.{f}", {}) for f in ("open", "close")}
+            delims = [Delimiter(marker=cols["marker"][i], length=cols["length"][i], token=cols["token"][i], end=cols["end"][i],
+                                open=bool(flags["open"].get(str(i), flags["open"].get(i, False))), close=bool(flags["close"].get(str(i), flags["close"].get(i, False))))
+                      for i in range(n)]
+            toks = lift_tokens(model) or []
+            st = SimpleNamespace(tokens=toks, delimiters=delims, tokens_meta=[None] * len(toks))
+            args = {"state": st, "delimiters": delims}
+            fn = getattr(importlib.import_module(".".join(parts[:-1])), parts[-1])
+            info["lifted"] = {"constructor": "Delimiter records and Token(type, nesting, level, content, tag, markup) objects from the model",
+                              "arguments": {"delimiters": [(d.marker, d.length, d.token, d.end, d.open, d.close) for d in delims],
+                                            "tokens": [(t.type, t.nesting, t.level, t.content) for t in toks]}}
         elif q.endswith("fragments_join.fragments_join"):
             from types import SimpleNamespace
 
